@@ -56,13 +56,230 @@ Definition sim_out (h : heap) (r : xres (list (string * oid))) (v : xres (list (
   | _, _ => False
   end.
 
+
+(* ---------- helper lemmas: heaps ---------- *)
+(* pointwise equality of heaps (write builds a new closure, so Leibniz equality is not available) *)
+Definition heq (h h' : heap) : Prop :=
+  h_next T h' = h_next T h /\ forall i, h_obj T h' i = h_obj T h i.
+
+Lemma heq_refl h : heq h h.
+Proof. split; [reflexivity|]. intros i. reflexivity. Qed.
+
+Lemma extends_refl h : extends h h.
+Proof. split; [lia|]. intros i Hi. reflexivity. Qed.
+
+Lemma extends_trans a b c : extends a b -> extends b c -> extends a c.
+Proof.
+  intros [L1 O1] [L2 O2]. split; [lia|].
+  intros i Hi. rewrite O2 by lia. apply O1. exact Hi.
+Qed.
+
+Lemma heq_extends h h' : heq h h' -> extends h h'.
+Proof. intros [N O]. split; [lia|]. intros i Hi. apply O. Qed.
+
+Lemma heq_wf h h' : heq h h' -> wf_heap h -> wf_heap h'.
+Proof. intros [N O] W i. rewrite N, O. apply W. Qed.
+
+Lemma live_env_extends h h' e : extends h h' -> live_env h e -> live_env h' e.
+Proof. intros [N O] L n i E. pose proof (L n i E) as Hi. lia. Qed.
+
+Lemma live_list_extends h h' l : extends h h' -> live_list h l -> live_list h' l.
+Proof. intros [N O] L n i E. pose proof (L n i E) as Hi. lia. Qed.
+
+Lemma venv_extends h h' e : extends h h' -> live_env h e -> forall x, venv h' e x = venv h e x.
+Proof.
+  intros [N O] L x. unfold venv.
+  destruct (e x) as [[i|]|] eqn:E; cbn; try reflexivity.
+  f_equal. apply O. exact (L x i E).
+Qed.
+
+(* writing back the values just read leaves the heap pointwise unchanged *)
+Lemma write_all_same h ids :
+  forall h', heq h h' -> heq h (write_all T h' ids (map (deref T h) ids)).
+Proof.
+  induction ids as [|o r IH]; intros h' Hq; cbn; [exact Hq|].
+  apply IH. destruct Hq as [N O].
+  destruct o as [i|]; cbn; [|split; assumption].
+  destruct (h_obj T h i) as [v|] eqn:E; cbn; [|split; assumption].
+  split; [exact N|]. intros j. cbn.
+  destruct (Nat.eqb j i) eqn:J; [|apply O].
+  apply Nat.eqb_eq in J. subst j. symmetry. exact E.
+Qed.
+
+Lemma alloc_spec h t h1 o :
+  alloc T h t = (h1, o) ->
+  extends h h1 /\ (wf_heap h -> wf_heap h1) /\ deref T h1 o = t /\
+  (forall i, o = Some i -> i < h_next T h1).
+Proof.
+  intros H. destruct t as [v|]; cbn in H; inversion H; subst; clear H.
+  - split; [|split; [|split]].
+    + split; cbn; [lia|]. intros i Hi.
+      destruct (Nat.eqb i (h_next T h)) eqn:E; [|reflexivity].
+      apply Nat.eqb_eq in E. lia.
+    + intros W i. cbn.
+      destruct (Nat.eqb i (h_next T h)) eqn:E.
+      * apply Nat.eqb_eq in E. subst i. split; [discriminate|lia].
+      * apply Nat.eqb_neq in E. destruct (W i) as [W1 W2].
+        split; intros Hi; [apply W1; lia|apply W2; lia].
+    + cbn. rewrite Nat.eqb_refl. reflexivity.
+    + intros i Hi. inversion Hi; subst. cbn. lia.
+  - split; [apply extends_refl|]. split; [auto|]. split; [reflexivity|].
+    intros i Hi. discriminate.
+Qed.
+
+Lemma alloc_all_spec outs :
+  forall h h2 oids, alloc_all T h outs = (h2, oids) ->
+  extends h h2 /\ (wf_heap h -> wf_heap h2) /\ map (deref T h2) oids = outs /\
+  (forall i, In (Some i) oids -> i < h_next T h2).
+Proof.
+  induction outs as [|t r IH]; intros h h2 oids H; cbn in H.
+  - inversion H; subst. split; [apply extends_refl|]. split; [auto|]. split; [reflexivity|].
+    intros i [].
+  - destruct (alloc T h t) as [h1 o] eqn:A.
+    destruct (alloc_all T h1 r) as [h2' os] eqn:AA.
+    inversion H; subst; clear H.
+    destruct (alloc_spec _ _ _ _ A) as (E1 & W1 & D1 & L1).
+    destruct (IH _ _ _ AA) as (E2 & W2 & D2 & L2).
+    split; [eapply extends_trans; eassumption|].
+    split; [auto|]. split.
+    + cbn. rewrite D2. f_equal.
+      destruct o as [i|]; [|exact D1]. cbn in *.
+      destruct E2 as [_ O2]. rewrite O2; [exact D1|]. apply L1. reflexivity.
+    + intros i [Hi|Hi]; [|apply L2; exact Hi].
+      destruct E2 as [N2 _]. pose proof (L1 i Hi). lia.
+Qed.
+
+(* ---------- helper lemmas: environments, pointwise ---------- *)
+Definition xenv_eq (a b : xres (env T)) : Prop :=
+  match a, b with
+  | XOk x, XOk y => forall n, x n = y n
+  | XErr k, XErr k' => k = k'
+  | XPanic, XPanic => True
+  | _, _ => False
+  end.
+
+Lemma gather_ext (e e' : env T) names :
+  (forall x, e x = e' x) -> gather T e names = gather T e' names.
+Proof.
+  intros HE. induction names as [|n r IH]; cbn; [reflexivity|].
+  rewrite IH, (HE n). reflexivity.
+Qed.
+
+Lemma bindout_ext names :
+  forall (e e' : env T) outs, (forall x, e x = e' x) ->
+  forall x, bindout T e names outs x = bindout T e' names outs x.
+Proof.
+  induction names as [|n ns IH]; intros e e' outs HE x; cbn; [apply HE|].
+  destruct outs as [|t ts]; [apply HE|].
+  apply IH. intros y. unfold upd. destruct (String.eqb y n); [reflexivity|apply HE].
+Qed.
+
+Lemma step_ext (e e' : env T) n :
+  (forall x, e x = e' x) -> xenv_eq (step e n) (step e' n).
+Proof.
+  intros HE. unfold Run.step.
+  destruct (supported (n_op n)); [|reflexivity].
+  rewrite (gather_ext e e' _ HE).
+  destruct (gather T e' (n_in n)) as [ins|k|]; cbn; [|reflexivity|exact I].
+  destruct (op_sem (n_op n) (n_attrs n) ins) as [outs|k|]; cbn; [|reflexivity|exact I].
+  destruct (Nat.eqb (List.length (n_out n)) (List.length outs)); cbn; [|reflexivity].
+  apply bindout_ext. exact HE.
+Qed.
+
+Lemma run_nodes_ext ns :
+  forall (e e' : env T), (forall x, e x = e' x) -> xenv_eq (run_nodes e ns) (run_nodes e' ns).
+Proof.
+  induction ns as [|n r IH]; intros e e' HE; cbn; [exact HE|].
+  pose proof (step_ext e e' n HE) as S.
+  destruct (step e n) as [a|k|], (step e' n) as [b|k'|]; cbn in *; try contradiction.
+  - apply IH. exact S.
+  - exact S.
+  - exact I.
+Qed.
+
+Lemma sim_env_trans h r a b : sim_env h r a -> xenv_eq a b -> sim_env h r b.
+Proof.
+  unfold sim_env, xenv_eq.
+  destruct r as [e|k|], a as [x|k1|], b as [y|k2|]; try contradiction; auto.
+  - intros H1 H2 n. rewrite H1. apply H2.
+  - intros H1 H2. congruence.
+Qed.
+
+Lemma ogather_gather h e names :
+  gather T (venv h e) names =
+  match ogather e names with
+  | XOk ids => XOk (map (deref T h) ids) | XErr k => XErr k | XPanic => XPanic
+  end.
+Proof.
+  induction names as [|n r IH]; cbn; [reflexivity|].
+  destruct (String.eqb n "").
+  - rewrite IH. destruct (ogather e r); reflexivity.
+  - unfold venv in *. destruct (e n) as [o|]; cbn; [|reflexivity].
+    rewrite IH. destruct (ogather e r); reflexivity.
+Qed.
+
+Lemma venv_obindout h names :
+  forall e oids x,
+  venv h (obindout e names oids) x = bindout T (venv h e) names (map (deref T h) oids) x.
+Proof.
+  induction names as [|n ns IH]; intros e oids x; cbn; [reflexivity|].
+  destruct oids as [|o os]; cbn; [reflexivity|].
+  rewrite IH. apply bindout_ext. intros y. unfold venv, oupd, upd.
+  destruct (String.eqb y n); reflexivity.
+Qed.
+
+Lemma live_obindout h names :
+  forall e oids, live_env h e -> (forall i, In (Some i) oids -> i < h_next T h) ->
+  live_env h (obindout e names oids).
+Proof.
+  induction names as [|a ns IH]; intros e oids L Lo; cbn; [exact L|].
+  destruct oids as [|o os]; [exact L|].
+  apply IH.
+  - intros m i. unfold oupd. destruct (String.eqb m a).
+    + intros E. inversion E; subst. apply Lo. now left.
+    + apply L.
+  - intros i Hi. apply Lo. now right.
+Qed.
+
 (* TARGET 1: one node step *)
 Theorem ostep_pure h e n h' r :
   pure -> wf_heap h -> live_env h e -> ostep h e n = (h', r) ->
   extends h h' /\ wf_heap h' /\ (forall e', r = XOk e' -> live_env h' e') /\
   sim_env h' r (step (venv h e) n).
 Proof.
-Abort.
+  intros P W L H. unfold History.ostep in H. unfold Run.step.
+  destruct (supported (n_op n)) eqn:S.
+  2:{ inversion H; subst. split; [apply extends_refl|]. split; [exact W|].
+      split; [intros e' Q; discriminate|reflexivity]. }
+  rewrite ogather_gather.
+  destruct (ogather e (n_in n)) as [ids|k|] eqn:G.
+  2:{ inversion H; subst. split; [apply extends_refl|]. split; [exact W|].
+      split; [intros e' Q; discriminate|reflexivity]. }
+  2:{ inversion H; subst. split; [apply extends_refl|]. split; [exact W|].
+      split; [intros e' Q; discriminate|exact I]. }
+  rewrite (P (n_op n) (n_attrs n) (map (deref T h) ids)) in H.
+  pose proof (write_all_same h ids h (heq_refl h)) as Hq.
+  remember (write_all T h ids (map (deref T h) ids)) as h1 eqn:Eh1. clear Eh1.
+  pose proof (heq_extends _ _ Hq) as Ex1. pose proof (heq_wf _ _ Hq W) as W1.
+  cbn [xbind].
+  destruct (op_sem (n_op n) (n_attrs n) (map (deref T h) ids)) as [outs|k|] eqn:O; cbn [xbind].
+  2:{ inversion H; subst. split; [exact Ex1|]. split; [exact W1|].
+      split; [intros e' Q; discriminate|reflexivity]. }
+  2:{ inversion H; subst. split; [exact Ex1|]. split; [exact W1|].
+      split; [intros e' Q; discriminate|exact I]. }
+  destruct (Nat.eqb (List.length (n_out n)) (List.length outs)) eqn:Len.
+  2:{ inversion H; subst. split; [exact Ex1|]. split; [exact W1|].
+      split; [intros e' Q; discriminate|reflexivity]. }
+  destruct (alloc_all T h1 outs) as [h2 oids] eqn:A.
+  inversion H; subst; clear H.
+  destruct (alloc_all_spec _ _ _ _ A) as (Ex2 & W2 & D2 & L2).
+  pose proof (extends_trans _ _ _ Ex1 Ex2) as Ex.
+  split; [exact Ex|]. split; [auto|]. split.
+  - intros e' Q. inversion Q; subst.
+    apply live_obindout; [|exact L2]. eapply live_env_extends; eassumption.
+  - cbn. intros x. rewrite venv_obindout, D2.
+    apply bindout_ext. apply venv_extends; assumption.
+Qed.
 
 (* TARGET 2: the node loop *)
 Theorem orun_nodes_pure ns h e h' r :
@@ -70,7 +287,110 @@ Theorem orun_nodes_pure ns h e h' r :
   extends h h' /\ wf_heap h' /\ (forall e', r = XOk e' -> live_env h' e') /\
   sim_env h' r (run_nodes (venv h e) ns).
 Proof.
-Abort.
+  revert h e h' r. induction ns as [|n ns IH]; intros h e h' r P W L H; cbn in H.
+  - inversion H; subst. split; [apply extends_refl|]. split; [exact W|].
+    split; [intros e' Q; inversion Q; subst; exact L|]. cbn. intros x. reflexivity.
+  - destruct (ostep h e n) as [h1 r1] eqn:St.
+    destruct (ostep_pure _ _ _ _ _ P W L St) as (Ex1 & W1 & L1 & S1).
+    cbn [Run.run_nodes].
+    destruct r1 as [e1|k|].
+    + destruct (step (venv h e) n) as [ve|k'|] eqn:Sv; cbn in S1; try contradiction.
+      cbn [xbind].
+      destruct (IH _ _ _ _ P W1 (L1 e1 eq_refl) H) as (Ex2 & W2 & L2 & S2).
+      split; [eapply extends_trans; eassumption|]. split; [exact W2|]. split; [exact L2|].
+      eapply sim_env_trans; [exact S2|]. apply run_nodes_ext. exact S1.
+    + inversion H; subst.
+      split; [exact Ex1|]. split; [exact W1|]. split; [intros e' Q; discriminate|].
+      destruct (step (venv h e) n) as [ve|k'|]; cbn in S1 |- *; try contradiction. exact S1.
+    + inversion H; subst.
+      split; [exact Ex1|]. split; [exact W1|]. split; [intros e' Q; discriminate|].
+      destruct (step (venv h e) n) as [ve|k'|]; cbn in S1 |- *; try contradiction. exact I.
+Qed.
+
+(* ---------- helper lemmas: the initial environment and output collection ---------- *)
+Lemma lookup_last_in {X} (l : list (string * X)) n v : lookup_last l n = Some v -> In (n, v) l.
+Proof.
+  induction l as [|[m w] r IH]; cbn; [discriminate|].
+  destruct (lookup_last r n) as [w'|] eqn:E.
+  - intros H. inversion H; subst. right. apply IH. reflexivity.
+  - destruct (String.eqb m n) eqn:E2; [|discriminate].
+    intros H. inversion H; subst. apply String.eqb_eq in E2. subst. now left.
+Qed.
+
+Lemma deref_list_cons h m i r :
+  deref_list T h ((m, i) :: r) =
+  match h_obj T h i with Some v => (m, v) :: deref_list T h r | None => deref_list T h r end.
+Proof. unfold deref_list. cbn. destruct (h_obj T h i); reflexivity. Qed.
+
+Lemma live_obj h i : wf_heap h -> i < h_next T h -> exists v, h_obj T h i = Some v.
+Proof.
+  intros W Hi. destruct (h_obj T h i) as [v|] eqn:E; [eauto|].
+  exfalso. exact (proj1 (W i) Hi E).
+Qed.
+
+(* live objects are all present, so dereferencing a list commutes with looking a name up *)
+Lemma lookup_last_deref h l n :
+  wf_heap h -> live_list h l ->
+  lookup_last (deref_list T h l) n =
+  match lookup_last l n with Some i => h_obj T h i | None => None end.
+Proof.
+  intros W. induction l as [|[m i] r IH]; intros L; [reflexivity|].
+  assert (Lr : live_list h r) by (intros a b Hab; apply (L a b); now right).
+  assert (Li : i < h_next T h) by (apply (L m i); now left).
+  destruct (live_obj h i W Li) as [v Ev].
+  rewrite deref_list_cons, Ev. cbn. rewrite (IH Lr).
+  destruct (lookup_last r n) as [j|] eqn:E2.
+  - assert (Lj : j < h_next T h) by (apply (Lr n j), lookup_last_in, E2).
+    destruct (live_obj h j W Lj) as [w Ew]. rewrite Ew. reflexivity.
+  - destruct (String.eqb m n); [symmetry; exact Ev|reflexivity].
+Qed.
+
+Lemma live_oenv0 h (m : omodel attrs) feed :
+  live_list h feed -> live_list h (om_params attrs m) -> live_env h (oenv0 attrs m feed).
+Proof.
+  intros Lf Lp n i E. unfold oenv0 in E.
+  assert (Hp : option_map Some (lookup_last (om_params attrs m) n) = Some (Some i) -> i < h_next T h).
+  { intros Q. destruct (lookup_last (om_params attrs m) n) as [p|] eqn:Pm; cbn in Q; [|discriminate].
+    inversion Q; subst. apply (Lp n i), lookup_last_in, Pm. }
+  destruct (lookup_last feed n) as [o|] eqn:F; [|exact (Hp E)].
+  destruct ((match lookup_last (om_params attrs m) n with Some _ => true | None => false end)
+            && negb (existsb (fun p => String.eqb (fst p) n) (om_inputs attrs m))); [exact (Hp E)|].
+  inversion E; subst. apply (Lf n i), lookup_last_in, F.
+Qed.
+
+Lemma venv_oenv0 h (m : omodel attrs) feed :
+  wf_heap h -> live_list h feed -> live_list h (om_params attrs m) ->
+  forall x, venv h (oenv0 attrs m feed) x
+            = env0 T attrs (graph_of T attrs h m) (deref_list T h feed) x.
+Proof.
+  intros W Lf Lp x. unfold venv, oenv0, env0, is_param, has_input, graph_of.
+  cbn [g_params g_inputs].
+  rewrite !lookup_last_deref by assumption.
+  destruct (lookup_last feed x) as [o|] eqn:F.
+  - assert (Lo : o < h_next T h) by (apply (Lf x o), lookup_last_in, F).
+    destruct (live_obj h o W Lo) as [t Et]. rewrite Et.
+    destruct (lookup_last (om_params attrs m) x) as [p|] eqn:Pm.
+    + assert (Lq : p < h_next T h) by (apply (Lp x p), lookup_last_in, Pm).
+      destruct (live_obj h p W Lq) as [v Ev]. rewrite Ev.
+      destruct (negb (existsb (fun p0 => String.eqb (fst p0) x) (om_inputs attrs m)));
+        cbn; rewrite ?Ev, ?Et; reflexivity.
+    + cbn. rewrite Et. reflexivity.
+  - destruct (lookup_last (om_params attrs m) x) as [p|] eqn:Pm; cbn; [|reflexivity].
+    assert (Lq : p < h_next T h) by (apply (Lp x p), lookup_last_in, Pm).
+    destruct (live_obj h p W Lq) as [v Ev]. rewrite Ev. reflexivity.
+Qed.
+
+Lemma ocollect_sim h e (ve : env T) outs :
+  wf_heap h -> live_env h e -> (forall x, venv h e x = ve x) ->
+  sim_out h (ocollect e outs) (collect T ve outs).
+Proof.
+  intros W L HE. induction outs as [|o r IH]; cbn; [reflexivity|].
+  rewrite <- (HE o). unfold venv.
+  destruct (e o) as [[i|]|] eqn:E; cbn; try reflexivity.
+  destruct (live_obj h i W (L _ _ E)) as [t Et]. rewrite Et.
+  destruct (ocollect e r) as [l|k|], (collect T ve r) as [vl|k'|]; cbn in *; try contradiction; auto.
+  rewrite Et, IH. reflexivity.
+Qed.
 
 (* TARGET 3: one Run on the object store = the pure Run of C01 on the current values; old objects untouched *)
 Theorem orun_pure h (m : omodel attrs) feed h' r :
@@ -79,7 +399,72 @@ Theorem orun_pure h (m : omodel attrs) feed h' r :
   extends h h' /\ wf_heap h' /\
   sim_out h' r (run_model (graph_of T attrs h m) (deref_list T h feed)).
 Proof.
-Abort.
+  intros P W Lf Lp H. unfold History.orun in H. unfold Run.run_model.
+  destruct (validate_shapes T attrs shape_of (graph_of T attrs h m) (deref_list T h feed)) eqn:V;
+    cbn [negb] in H |- *.
+  2:{ inversion H; subst. split; [apply extends_refl|]. split; [exact W|]. reflexivity. }
+  destruct (orun_nodes h (oenv0 attrs m feed) (om_nodes attrs m)) as [h1 r1] eqn:R.
+  pose proof (live_oenv0 h m feed Lf Lp) as L0.
+  destruct (orun_nodes_pure _ _ _ _ _ P W L0 R) as (Ex & W1 & L1 & S).
+  pose proof (run_nodes_ext (om_nodes attrs m) _ _ (venv_oenv0 h m feed W Lf Lp)) as Xe.
+  pose proof (sim_env_trans _ _ _ _ S Xe) as S'.
+  change (g_nodes (graph_of T attrs h m)) with (om_nodes attrs m).
+  change (g_outputs (graph_of T attrs h m)) with (om_outputs attrs m).
+  destruct r1 as [e1|k|];
+    destruct (run_nodes (env0 T attrs (graph_of T attrs h m) (deref_list T h feed)) (om_nodes attrs m))
+      as [ve|k'|]; cbn in S'; try contradiction; inversion H; subst; clear H;
+    (split; [exact Ex|]); (split; [exact W1|]); cbn [xbind].
+  - apply ocollect_sim; [exact W1|exact (L1 e1 eq_refl)|exact S'].
+  - reflexivity.
+  - exact I.
+Qed.
+
+(* ---------- helper lemmas: histories ---------- *)
+(* reading live objects through a later heap gives the same values *)
+Lemma deref_list_extends h h' l :
+  extends h h' -> live_list h l -> deref_list T h' l = deref_list T h l.
+Proof.
+  intros [N O]. induction l as [|[n i] r IH]; intros L; [reflexivity|].
+  rewrite !deref_list_cons. rewrite O by (apply (L n i); now left).
+  rewrite IH; [reflexivity|]. intros a b Hab. apply (L a b). now right.
+Qed.
+
+Lemma graph_of_extends h h' (m : omodel attrs) :
+  extends h h' -> live_list h (om_params attrs m) -> graph_of T attrs h' m = graph_of T attrs h m.
+Proof. intros Ex L. unfold graph_of. rewrite (deref_list_extends _ _ _ Ex L). reflexivity. Qed.
+
+Definition call_ok (h0 : heap) (m : omodel attrs) (feed : list (string * oid))
+           (r : xres (list (string * option T))) : Prop :=
+  match r, run_model (graph_of T attrs h0 m) (deref_list T h0 feed) with
+  | XOk l, XOk vl => l = map (fun p => (fst p, Some (snd p))) vl
+  | XErr k, XErr k' => k = k'
+  | XPanic, XPanic => True
+  | _, _ => False
+  end.
+
+Lemma history_gen calls :
+  forall h0 h (m : omodel attrs) h' rs,
+  pure -> wf_heap h -> extends h0 h -> live_list h0 (om_params attrs m) ->
+  Forall (live_list h0) calls ->
+  orun_hist h m calls = (h', rs) ->
+  extends h h' /\ Forall2 (call_ok h0 m) calls rs.
+Proof.
+  induction calls as [|feed r IH]; intros h0 h m h' rs P W Ex0 Lp Lc H; cbn in H.
+  - inversion H; subst. split; [apply extends_refl|constructor].
+  - destruct (orun h m feed) as [h1 res] eqn:R.
+    destruct (orun_hist h1 m r) as [h2 rs'] eqn:RH.
+    inversion H; subst; clear H.
+    inversion Lc as [|f' r' Lf Lr]; subst.
+    destruct (orun_pure _ _ _ _ _ P W (live_list_extends _ _ _ Ex0 Lf)
+                        (live_list_extends _ _ _ Ex0 Lp) R) as (Ex1 & W1 & S1).
+    rewrite (graph_of_extends _ _ _ Ex0 Lp), (deref_list_extends _ _ _ Ex0 Lf) in S1.
+    destruct (IH h0 h1 m _ _ P W1 (extends_trans _ _ _ Ex0 Ex1) Lp Lr RH) as (Ex2 & F2).
+    split; [eapply extends_trans; eassumption|].
+    constructor; [|exact F2].
+    unfold call_ok. unfold sim_out in S1.
+    destruct res as [l|k|], (run_model (graph_of T attrs h0 m) (deref_list T h0 feed)) as [vl|k'|];
+      cbn; try contradiction; exact S1.
+Qed.
 
 (* TARGET 4 (C02): any history of Runs passing pre-existing objects: every pre-existing object is
    unchanged at the end, and the k-th Run returns what the pure model returns on a freshly loaded
@@ -96,7 +481,9 @@ Theorem history_independent calls h (m : omodel attrs) h' rs :
              | _, _ => False
              end) calls rs.
 Proof.
-Abort.
+  intros P W Lp Lc H.
+  exact (history_gen calls h h m h' rs P W (extends_refl h) Lp Lc H).
+Qed.
 
 (* TARGET 5 (C17): interleavings. A thread's abstraction, and its own sequential step. *)
 Record pthread := { p_env : env T; p_todo : list (node attrs); p_failed : option rerr }.
@@ -115,6 +502,148 @@ Definition abs_thread (h : heap) (t : thread attrs) : pthread :=
 Definition pthread_eq (a b : pthread) : Prop :=
   (forall x, p_env a x = p_env b x) /\ p_todo a = p_todo b /\ p_failed a = p_failed b.
 
+(* ---------- helper lemmas: interleavings ---------- *)
+Lemma pthread_eq_refl a : pthread_eq a a.
+Proof. split; [intros x; reflexivity|]. split; reflexivity. Qed.
+
+Lemma pthread_eq_trans a b c : pthread_eq a b -> pthread_eq b c -> pthread_eq a c.
+Proof.
+  intros (E1 & T1 & F1) (E2 & T2 & F2). split; [|split; congruence].
+  intros x. rewrite E1. apply E2.
+Qed.
+
+Lemma pstep_ext a b : pthread_eq a b -> pthread_eq (pstep a) (pstep b).
+Proof.
+  intros Q. pose proof Q as (E & Td & F). unfold pstep. rewrite <- Td, <- F.
+  destruct (p_failed a) as [k0|] eqn:Fa; [exact Q|].
+  destruct (p_todo a) as [|n rest] eqn:Ta; [exact Q|].
+  pose proof (step_ext _ _ n E) as S.
+  destruct (step (p_env a) n) as [x|k|], (step (p_env b) n) as [y|k'|]; cbn in S; try contradiction.
+  - split; [exact S|]. split; reflexivity.
+  - subst k'. split; [exact E|]. split; reflexivity.
+  - split; [exact E|]. split; reflexivity.
+Qed.
+
+Lemma iter_pstep_ext c a b : pthread_eq a b -> pthread_eq (Nat.iter c pstep a) (Nat.iter c pstep b).
+Proof. intros E. induction c as [|c IH]; cbn; [exact E|]. apply pstep_ext. exact IH. Qed.
+
+Lemma iter_succ_r {X} (f : X -> X) c x : Nat.iter (S c) f x = Nat.iter c f (f x).
+Proof. induction c as [|c IH]; [reflexivity|]. cbn in *. rewrite IH. reflexivity. Qed.
+
+Lemma nth_replace {X} (t' : X) :
+  forall ts i j, i < List.length ts ->
+  nth_error (firstn i ts ++ t' :: skipn (S i) ts) j = if Nat.eqb j i then Some t' else nth_error ts j.
+Proof.
+  induction ts as [|a r IH]; intros i j Hi; cbn in Hi; [lia|].
+  destruct i as [|i].
+  - destruct j; reflexivity.
+  - destruct j as [|j]; [reflexivity|].
+    cbn [firstn skipn app nth_error Nat.eqb]. apply IH. lia.
+Qed.
+
+Lemma length_replace {X} (t' : X) ts i :
+  i < List.length ts -> List.length (firstn i ts ++ t' :: skipn (S i) ts) = List.length ts.
+Proof.
+  intros Hi. rewrite app_length. cbn [List.length]. rewrite firstn_length, skipn_length. lia.
+Qed.
+
+Notation tlive h := (fun t => live_env h (t_env attrs t)).
+
+Definition sched_post (h : heap) (ts : list (thread attrs)) (i : nat)
+           (h1 : heap) (ts1 : list (thread attrs)) : Prop :=
+  extends h h1 /\ wf_heap h1 /\ Forall (tlive h1) ts1 /\ List.length ts1 = List.length ts /\
+  forall j t t1, nth_error ts j = Some t -> nth_error ts1 j = Some t1 ->
+    pthread_eq (abs_thread h1 t1) (if Nat.eqb j i then pstep (abs_thread h t) else abs_thread h t).
+
+Lemma sched_noop h ts i :
+  wf_heap h -> Forall (tlive h) ts ->
+  (forall t, nth_error ts i = Some t -> pstep (abs_thread h t) = abs_thread h t) ->
+  sched_post h ts i h ts.
+Proof.
+  intros W L Hn. split; [apply extends_refl|]. split; [exact W|]. split; [exact L|].
+  split; [reflexivity|].
+  intros j t t1 A B. rewrite A in B. inversion B; subst t1.
+  destruct (Nat.eqb j i) eqn:J; [|apply pthread_eq_refl].
+  apply Nat.eqb_eq in J. subst j. rewrite (Hn t A). apply pthread_eq_refl.
+Qed.
+
+(* the definition, stated so that unfolding does not reduce skipn (S i) ts *)
+Lemma sched_step_unfold h (ts : list (thread attrs)) i :
+  sched_step T attrs op_sem op_eff supported h ts i =
+  match nth_error ts i with
+  | Some t =>
+      match t_failed attrs t, t_todo attrs t with
+      | None, n :: rest =>
+          let (h1, r) := ostep h (t_env attrs t) n in
+          let t' := match r with
+                    | XOk e1 => {| t_env := e1; t_todo := rest; t_failed := None |}
+                    | XErr k => {| t_env := t_env attrs t; t_todo := rest; t_failed := Some k |}
+                    | XPanic => {| t_env := t_env attrs t; t_todo := rest; t_failed := Some ROpErr |}
+                    end in
+          (h1, (firstn i ts ++ t' :: skipn (S i) ts)%list)
+      | _, _ => (h, ts)
+      end
+  | None => (h, ts)
+  end.
+Proof. reflexivity. Qed.
+
+Lemma sched_step_pure h ts i h1 ts1 :
+  pure -> wf_heap h -> Forall (tlive h) ts ->
+  sched_step T attrs op_sem op_eff supported h ts i = (h1, ts1) ->
+  sched_post h ts i h1 ts1.
+Proof.
+  intros P W L H. rewrite sched_step_unfold in H.
+  destruct (nth_error ts i) as [t|] eqn:N.
+  2:{ inversion H; subst. apply sched_noop; [exact W|exact L|]. intros t Q. rewrite N in Q. discriminate. }
+  destruct (t_failed attrs t) as [k0|] eqn:F.
+  { inversion H; subst. apply sched_noop; [exact W|exact L|].
+    intros t0 Q. rewrite N in Q. inversion Q; subst t0.
+    unfold pstep, abs_thread. cbn. rewrite F. reflexivity. }
+  destruct (t_todo attrs t) as [|n rest] eqn:Td.
+  { inversion H; subst. apply sched_noop; [exact W|exact L|].
+    intros t0 Q. rewrite N in Q. inversion Q; subst t0.
+    unfold pstep, abs_thread. cbn. rewrite F, Td. reflexivity. }
+  destruct (ostep h (t_env attrs t) n) as [h2 r] eqn:St.
+  cbv zeta in H. apply pair_equal_spec in H. destruct H as [Eh Ets]. subst h2 ts1.
+  assert (Hi : i < List.length ts) by (apply nth_error_Some; rewrite N; discriminate).
+  assert (Lt : live_env h (t_env attrs t)).
+  { rewrite Forall_forall in L. apply L. eapply nth_error_In. exact N. }
+  destruct (ostep_pure _ _ _ _ _ P W Lt St) as (Ex & W1 & L1 & S).
+  set (t' := match r with
+             | XOk e1 => {| t_env := e1; t_todo := rest; t_failed := None |}
+             | XErr k => {| t_env := t_env attrs t; t_todo := rest; t_failed := Some k |}
+             | XPanic => {| t_env := t_env attrs t; t_todo := rest; t_failed := Some ROpErr |}
+             end) in *.
+  assert (Lt' : live_env h1 (t_env attrs t')).
+  { subst t'. destruct r as [e1|k|]; cbn.
+    - apply L1. reflexivity.
+    - eapply live_env_extends; eassumption.
+    - eapply live_env_extends; eassumption. }
+  split; [exact Ex|]. split; [exact W1|]. split; [|split].
+  - rewrite Forall_forall in *. intros x Hx.
+    apply In_nth_error in Hx. destruct Hx as [j Hj].
+    rewrite nth_replace in Hj by exact Hi.
+    destruct (Nat.eqb j i).
+    + inversion Hj; subst x. exact Lt'.
+    + eapply live_env_extends; [exact Ex|]. apply L. eapply nth_error_In. exact Hj.
+  - apply length_replace. exact Hi.
+  - intros j t0 t1 A B. rewrite nth_replace in B by exact Hi.
+    destruct (Nat.eqb j i) eqn:J.
+    + apply Nat.eqb_eq in J. subst j. rewrite N in A. inversion A; subst t0.
+      inversion B; subst t1. clear A B.
+      unfold pstep, abs_thread. cbn [p_failed p_todo p_env]. rewrite F, Td.
+      subst t'.
+      destruct r as [e1|k|], (step (venv h (t_env attrs t)) n) as [ve|k'|];
+        cbn in S; try contradiction; cbn.
+      * split; [exact S|]. split; reflexivity.
+      * subst k'. split; [|split; reflexivity]. cbn. apply venv_extends; assumption.
+      * split; [|split; reflexivity]. cbn. apply venv_extends; assumption.
+    + rewrite A in B. inversion B; subst t1.
+      split; [|split; reflexivity]. cbn.
+      apply venv_extends; [exact Ex|].
+      rewrite Forall_forall in L. apply L. eapply nth_error_In. exact A.
+Qed.
+
 (* after ANY schedule, thread i is exactly where its own sequential execution is after as many
    steps as the schedule gave it -- whatever the other threads did in between *)
 Theorem interleaving_independent sched h (ts : list (thread attrs)) h' ts' :
@@ -124,5 +653,31 @@ Theorem interleaving_independent sched h (ts : list (thread attrs)) h' ts' :
   forall i t t', nth_error ts i = Some t -> nth_error ts' i = Some t' ->
     pthread_eq (abs_thread h' t') (Nat.iter (count_occ Nat.eq_dec sched i) pstep (abs_thread h t)).
 Proof.
-Abort.
+  revert h ts h' ts'. induction sched as [|i r IH]; intros h ts h' ts' P W L H; cbn in H.
+  - inversion H; subst. split; [apply extends_refl|]. split; [reflexivity|].
+    intros i t t' A B. rewrite A in B. inversion B; subst. cbn. apply pthread_eq_refl.
+  - destruct (sched_step T attrs op_sem op_eff supported h ts i) as [h1 ts1] eqn:St.
+    destruct (sched_step_pure _ _ _ _ _ P W L St) as (Ex & W1 & L1 & Len & Q).
+    destruct (IH _ _ _ _ P W1 L1 H) as (Ex' & Len' & Q').
+    split; [eapply extends_trans; eassumption|]. split; [lia|].
+    intros j t t' A B.
+    assert (C : exists t1, nth_error ts1 j = Some t1).
+    { destruct (nth_error ts1 j) as [t1|] eqn:E; [eauto|].
+      apply nth_error_None in E.
+      assert (j < List.length ts) by (apply nth_error_Some; rewrite A; discriminate). lia. }
+    destruct C as [t1 C].
+    pose proof (Q' j t1 t' C B) as Q1. pose proof (Q j t t1 A C) as Q2.
+    cbn [count_occ]. destruct (Nat.eq_dec i j) as [Eij|Ne].
+    + subst j. rewrite Nat.eqb_refl in Q2. rewrite iter_succ_r.
+      eapply pthread_eq_trans; [exact Q1|]. apply iter_pstep_ext. exact Q2.
+    + assert (J : Nat.eqb j i = false) by (apply Nat.eqb_neq; congruence).
+      rewrite J in Q2.
+      eapply pthread_eq_trans; [exact Q1|]. apply iter_pstep_ext. exact Q2.
+Qed.
 End P.
+
+Print Assumptions ostep_pure.
+Print Assumptions orun_nodes_pure.
+Print Assumptions orun_pure.
+Print Assumptions history_independent.
+Print Assumptions interleaving_independent.
